@@ -30,6 +30,13 @@ understood: `c10-b` is no defect at HEAD (the repaired `Bytes` hands the origina
 (replay files of race reports named the wrong case; violations that depend on process
 history did not reproduce), both corrected (§8.3), after which the ten affected files
 reproduce.
+A sample run at the end (hour 20, every fourth change, 40 of 160, all generators of waves
+7-10 in place, /repo at its final HEAD): 34 detected again by the check named first in their
+row, the first replay file of 33 of them reproducing twice with the same kind@site; the
+34th is a data race whose replay shows the report in two of three fresh processes (the race
+detector evicts shadow cells at random, an assumption listed in evidence/C13.json); 4
+patches do not apply to HEAD; 2 blind spots skipped. No detection was lost to the later
+generators.
 
 | seeded change | property | needs, to manifest | caught by |
 |---|---|---|---|
